@@ -25,7 +25,7 @@ var hostileNames = []string{"", ".", "..", "a.", ".a", "a..b", "-1", "-0", "+1",
 	"9223372036854775807", "9223372036854775808", "-9223372036854775808", "18446744073709551616", "1024", "1025", "5000", "a.-1", "a.1025", "a.0.b", "0.0.0",
 	"[a.b]", "[", "]", "a b", "é", "\x00", "*", "**", "a.*", "**.a", "$", "${a}", "a=b"}
 
-var hostileIdx = []int{-1, -2, -1 << 31, 0, 1, 2, 7, 1023, 1024, 1025, 5000, 1 << 20, 1 << 40, 1<<62 + 5}
+var hostileIdx = []int{-1, -2, -1 << 31, 0, 1, 2, 7, 9, 1023, 1024, 1025, 5000, 1 << 16, 1 << 20, 1 << 40, 1<<62 + 5}
 
 func name(r *sim.R) string {
 	if r.T.Chance(1, 3, "plain-name") {
@@ -41,10 +41,14 @@ func idx(r *sim.R) int {
 	return hostileIdx[r.T.Choose(len(hostileIdx), "hostile-idx")]
 }
 
+// maxIdxOf remembers the MaxIdx the last genOpts drew (default 1024).
+var maxIdxOf = 1024
+
 func genOpts(r *sim.R) ([]ucfg.Option, string) {
 	t := r.T
 	var o []ucfg.Option
 	var d []string
+	maxIdxOf = 1024
 	if t.Choose(3, "sep") != 0 {
 		o = append(o, ucfg.PathSep("."))
 		d = append(d, "PathSep")
@@ -53,13 +57,23 @@ func genOpts(r *sim.R) ([]ucfg.Option, string) {
 		o = append(o, ucfg.VarExp)
 		d = append(d, "VarExp")
 	}
-	switch t.Choose(5, "maxidx") {
+	switch t.Choose(6, "maxidx") {
 	case 1:
 		o = append(o, ucfg.MaxIdx(0))
 		d = append(d, "MaxIdx(0)")
+		maxIdxOf = 0
 	case 2:
 		o = append(o, ucfg.MaxIdx(8))
 		d = append(d, "MaxIdx(8)")
+		maxIdxOf = 8
+	case 4:
+		o = append(o, ucfg.MaxIdx(-1))
+		d = append(d, "MaxIdx(-1)")
+		maxIdxOf = -1
+	case 5:
+		o = append(o, ucfg.MaxIdx(-1<<40))
+		d = append(d, "MaxIdx(-2^40)")
+		maxIdxOf = -1
 	case 3:
 		o = append(o, ucfg.EnableNumKeys(true))
 		d = append(d, "EnableNumKeys")
@@ -130,7 +144,10 @@ func accessors(r *sim.R) {
 		return
 	}
 	r.Tracef("config %v opts [%s]", init, od)
-	limit := 1025 + 1
+	limit := maxIdxOf + 1
+	if limit < 3 {
+		limit = 3 // the initial list has three elements
+	}
 	n := 1 + t.Choose(8, "n-ops")
 	for i := 0; i < n; i++ {
 		r.NextStep()
@@ -216,7 +233,10 @@ func keys(r *sim.R) {
 	call(r, "NewFrom", func() { c, _ = ucfg.NewFrom(in, opts...) })
 	r.StateOps += 2
 	if c != nil {
-		limit := 1025 + 1
+		limit := maxIdxOf + 1
+		if limit < 2 {
+			limit = 2 // a literal list value of the input has two elements
+		}
 		checkAlloc(r, c, "NewFrom", limit)
 		call(r, "Unpack", func() {
 			var m map[string]interface{}
